@@ -1,5 +1,6 @@
 import Gomacro.Drv.C03
 import Gomacro.PgTables
+import Gomacro.EndToEndSql
 namespace Gomacro.Drv
 open Lean Gomacro.IR Gomacro.GoJson Gomacro.PgGen Gomacro.PgTables
 
@@ -42,6 +43,34 @@ def c04Eval : Handler := fun j => do
   let fn := fnName env t
   let res := (getListD j "docs").map fun d => triToJson (call script 64 fn (some (jsonToJVal d)))
   return Json.mkObj [("results", Json.arr res.toArray), ("fn", fn)]
+
+/-- op `c04.fragment`: is the program (with the script of all its jsonb columns) inside the fragment
+of the end-to-end theorem `Props/C04E2E.lean`; which column types are covered; are the dumped values
+well-typed -/
+def c04Fragment : Handler := fun j => do
+  let env ← decEnv (← getObj j "env")
+  let w := decWrappers ((j.getObjVal? "wrappers").toOption.getD (Json.mkObj []))
+  let colTys ← (getListD j "columns").mapM fun c => decTy c
+  let script := (colTys.flatMap fun t => funcsFrom env 24 t)
+  -- declarations reachable from the column types through what the validators look at
+  let expand (vis : List String) : List String :=
+    vis.foldl (fun acc q => match env.find? q with
+      | none => acc
+      | some d => ((E2ESql.sqlChildTys d).flatMap Ty.refs).foldl (fun a r => if a.contains r then a else a ++ [r]) acc) vis
+  let rec reach : Nat → List String → List String
+    | 0, v => v
+    | n + 1, v => let v' := expand v; if v'.length == v.length then v else reach n v'
+  let ds := (reach (env.decls.length + 1) ((colTys.flatMap Ty.refs).eraseDups)).filterMap env.find?
+  let inFrag := E2ESql.fragmentSqlB env w script ds
+  let bad := ds.filter fun d => !(E2ESql.declOkSql env w d) || !(E2ESql.providedSql env script d)
+  let cols := colTys.map fun t =>
+    Json.bool ((E2ESql.subTys t).all (E2ESql.scriptHas env script) && E2E.noUnion env t && E2E.shapeOk t && E2ESql.lensOk t)
+  let vals ← (getListD j "values").mapM fun x => do
+    let t ← decTy (← getObj x "type")
+    let v ← decGoVal (← getObj x "val")
+    pure (Json.bool (E2E.hasType env 64 t v))
+  return Json.mkObj [("inFragment", Json.bool inFrag), ("outside", strs (bad.map (·.name))),
+    ("columns", Json.arr cols.toArray), ("hasType", Json.arr vals.toArray)]
 
 def decPgFunc (j : Json) : PgFunc :=
   let fn := getStrD j "fn"
